@@ -391,6 +391,11 @@ def run(rep, tier):
             rep.check(w7 is None, 'R10.7', '%s|%s' % (eq.split('::')[1], what), locstr(n), 'the %s of step() is %s' % (what, 'only reached past a test of _isCancelled' if w7 is None else
                       'reached WITHOUT looking at _isCancelled: while eventless transitions stay enabled or the internal queue is fed, cancel() is never honoured - step() returns MICROSTEPPED for ever, USCXMLInvoker::stop() joins a thread that never ends'))
 
+    # ---- R10.8 "after every remaining exit handler ran once": a failing <onexit> block must not take the later ones with it
+    rep.rule('R10.8', 'every remaining exit handler runs in the finalising step: each process() call of the engines (the finalising branch included) sits alone in a try/catch(...) inside its loop, so a failing block skips only itself (same rule as C07 R07.5)')
+    from . import C07
+    C07.call_granularity(rep, fb, 'R10.8', 'uscxml::MicroStepCallbacks::process', 'blocks')
+
     # ---- R10.5
     dq = 'uscxml::BasicDelayedEventQueue'
     run_ = fb.fn(dq + '::run')
